@@ -5,6 +5,7 @@ import (
 
 	"github.com/llir/ll/ast"
 	"github.com/llir/llvm/ir"
+	"github.com/llir/llvm/ir/types"
 	"github.com/pkg/errors"
 )
 
@@ -20,6 +21,9 @@ func (fgen *funcGen) newInst(old ast.Instruction) (ir.Instruction, error) {
 		inst, err := fgen.newValueInst(ident, old.Inst())
 		if err != nil {
 			return nil, err
+		}
+		if call, ok := inst.(*ir.InstCall); ok && types.IsVoid(call.Typ) && old.Name().Text() != `%""` {
+			return nil, errors.Errorf("instruction returning void cannot have a name; got %q", old.Name().Text())
 		}
 		fgen.recordExplicitID(ident, old.Name().Text(), inst)
 		return inst, nil
